@@ -210,24 +210,28 @@ func shortFn(s string) string {
 }
 
 
-// watched runs f; if f has not returned after 3 s (virtual) it records a dump of all goroutines.
-func watched(f func()) (durUs int64, dump string) {
+// watched runs f; if f has not returned after 3 s (virtual) a dump of all goroutines is stored into *dump (under mu)
+// - also when f never returns.
+func watched(f func(), dump *string, mu *sync.Mutex) (durUs int64) {
 	done := make(chan struct{})
-	got := make(chan string, 1)
+	fin := make(chan struct{})
 	go func() {
+		defer close(fin)
 		select {
 		case <-done:
-			got <- ""
 		case <-time.After(3 * time.Second):
 			buf := make([]byte, 8<<20)
-			got <- string(buf[:runtime.Stack(buf, true)])
+			d := string(buf[:runtime.Stack(buf, true)])
+			mu.Lock()
+			*dump = d
+			mu.Unlock()
 		}
 	}()
 	a := time.Now()
 	f()
 	durUs = time.Since(a).Microseconds()
 	close(done)
-	dump = <-got
+	<-fin
 	return
 }
 
@@ -312,6 +316,7 @@ type runner struct {
 	r        *vh.Run
 	baseline map[string]int
 	wallDead time.Time
+	abort    string // set when a scenario left calls / closes blocked for good: leaked pollers make virtual time expensive, stop here
 }
 
 func (rn *runner) fail(sig, what string, sc *Scenario, extra map[string]interface{}) {
@@ -513,17 +518,22 @@ func (rn *runner) run(sc *Scenario) {
 	// teardown: close both muxes, everything still blocked must return
 	td0 := time.Now()
 	tdDone := make(chan struct{})
-	var tdC, tdS int64
+	var tdC, tdS atomic.Int64
+	var stage atomic.Int32
 	var dumpC, dumpS string
 	go func() {
-		tdC, dumpC = watched(func() { w.closeC(); w.closeC() })
-		tdS, dumpS = watched(func() { w.closeS(); w.closeS() })
+		stage.Store(1)
+		tdC.Store(watched(func() { w.closeC(); w.closeC() }, &dumpC, &w.dumpMu))
+		stage.Store(2)
+		tdS.Store(watched(func() { w.closeS(); w.closeS() }, &dumpS, &w.dumpMu))
+		stage.Store(3)
 		close(tdDone)
 	}()
 	tdBlocked := false
 	select {
 	case <-tdDone:
-	case <-time.After(150 * time.Second):
+	case <-time.After(time.Duration(readTimeoutUs)*time.Microsecond + 8*time.Second):
+		// longer than the one wait that is a known finding (a re-armed event-loop read timeout)
 		tdBlocked = true
 	}
 	tdUs := time.Since(td0).Microseconds()
@@ -541,6 +551,10 @@ func (rn *runner) run(sc *Scenario) {
 	leakAfter := int64(-1)
 	var leaked map[string]int
 	settle := []time.Duration{3 * time.Second, 7 * time.Second, 20 * time.Second, 100 * time.Second, 120 * time.Second}
+	if tdBlocked || len(stuck) > 0 {
+		settle = settle[:1]
+		rn.abort = fmt.Sprintf("scenario %d (%s/%s): teardown blocked=%v, calls still blocked=%v", sc.ID, sc.Transport, sc.Kind, tdBlocked, stuck)
+	}
 	var waited time.Duration
 	for _, d := range settle {
 		time.Sleep(d)
@@ -560,15 +574,17 @@ func (rn *runner) run(sc *Scenario) {
 
 	// ------------------------------------------------------------------ oracle (property text)
 	if tdBlocked || tdUs > 3_000_000+2_000_000*int64(sc.NSess) {
-		kind, dump, dur := "CMux", dumpC, tdC
-		if tdS > tdC || (tdBlocked && tdC > 0 && tdC <= 3_000_000) {
-			kind, dump, dur = "SMux", dumpS, tdS
+		w.dumpMu.Lock()
+		kind, dump, dur := "CMux", dumpC, tdC.Load()
+		if stage.Load() >= 2 && (tdS.Load() > tdC.Load() || stage.Load() == 2) {
+			kind, dump, dur = "SMux", dumpS, tdS.Load()
 		}
+		w.dumpMu.Unlock()
 		if tdBlocked {
 			dur = -1
 		}
 		cause, _ := blockedCloseCause(kind, dump, dur)
-		rn.fail(fmt.Sprintf("close-blocked-%s-%s", cause, sc.Transport), fmt.Sprintf("closing both muxes at the end of the scenario took %d ms (client mux %d ms, server mux %d ms, never returned=%v); where: %s", tdUs/1000, tdC/1000, tdS/1000, tdBlocked, cause), sc, nil)
+		rn.fail(fmt.Sprintf("close-blocked-%s-%s", cause, sc.Transport), fmt.Sprintf("closing both muxes at the end of the scenario took %d ms (client mux %d ms, server mux %d ms, never returned=%v); where: %s", tdUs/1000, tdC.Load()/1000, tdS.Load()/1000, tdBlocked, cause), sc, nil)
 	}
 	if len(stuck) > 0 {
 		rn.fail("call-not-unblocked-by-mux-close-"+strings.ToLower(w.firstStuckKind()), fmt.Sprintf("calls still blocked 5 s after both muxes were closed: %v", stuck), sc, nil)
@@ -642,7 +658,7 @@ func (w *world) exec(rc *rec) {
 			one = make([]byte, 1000)
 		}
 		cnt, cls := 0, "OK"
-		for i := 0; i < op.Arg; i++ {
+		for i := 0; i < op.Arg && !w.over.Load(); i++ {
 			if w.sc.PumpGapMs > 0 && i > 0 {
 				time.Sleep(time.Duration(w.sc.PumpGapMs) * time.Millisecond)
 			}
@@ -1401,6 +1417,9 @@ func main() {
 		if only != "" && !strings.Contains(sc.Kind, only) {
 			continue
 		}
+		if rn.abort != "" {
+			break
+		}
 		wa := wallNow()
 		rn.run(sc)
 		r.Rep.Distribution["wallms:"+sc.Transport+"/"+sc.Kind] += int((wallNow() - wa) / 1_000_000)
@@ -1413,6 +1432,9 @@ func main() {
 				break
 			}
 			id++
+			if rn.abort != "" {
+				break
+			}
 			sc := randomScenario(r.Rng.Fork(), id, i >= nrand)
 			rn.run(sc)
 			var ks []string
@@ -1424,6 +1446,10 @@ func main() {
 			sort.Strings(ks)
 			r.Distinct(sc.Transport + "/" + strings.Join(ks, ","))
 		}
+	}
+	if rn.abort != "" {
+		r.Count("aborted-after-hang")
+		r.Rep.Notes = map[string]string{"aborted": rn.abort}
 	}
 	r.Rep.Rule = "corpus of scripted scenarios (deadline witnesses, close with blocked calls at both ends, repeated close, mux close, idle 3/7/70 s, TCP reset, UDP black hole, peer not reading) on TCP and UDP, then random scenarios: 1..3 sessions, per session and end a reader, a writer and a closer goroutine with timed operations from the PRNG, optional client/server Mux.Close, TCP reset or UDP black hole; one evaluation = one line (call issued / call returned with its class / deadline set); non-trivial = distinct (transport, multiset of close/failure operations)"
 	r.Finish()
